@@ -37,6 +37,23 @@ def _has_mainthing():
     return getattr(sys.modules.get('__main__'), 'MainThing', None) is not None
 
 
+class KeyErrObj(object):
+    """an argument whose repr, hash and pickling all raise KeyError (a half-initialised object reading a
+    field that is not there yet): encoding it fails with the very exception a cache miss uses"""
+    def __repr__(self):
+        raise KeyError('field')
+    __str__ = __repr__
+
+    def __hash__(self):
+        raise KeyError('id')
+
+    def __reduce__(self):
+        raise KeyError('_conn')
+
+    def __eq__(self, other):
+        return isinstance(other, KeyErrObj)
+
+
 def _gen():
     yield 1
 
@@ -51,6 +68,7 @@ def _mainthing():
 
 SPECIAL = {
     'mainthing': _mainthing,
+    'keyerr': KeyErrObj,
     'badrepr': BadRepr,
     'unpicklable': Unpicklable,
     'generator': _gen,
@@ -102,6 +120,8 @@ def enc(v):
         return {'$s': sorted((enc(x) for x in v), key=repr)}
     if type(v).__name__ == 'MainThing' and type(v).__module__ == '__main__':
         return {'$o': 'mainthing'} if _has_mainthing() else {'$r': repr(v)}
+    if isinstance(v, KeyErrObj):
+        return {'$o': 'keyerr'}
     if isinstance(v, BadRepr):
         return {'$o': 'badrepr'}
     if isinstance(v, Unpicklable):
